@@ -352,6 +352,9 @@ func checkC01(c *Ctx) {
 	if fM, clr := c.field("", "scopeBucket", "s"), c.fn("", "scope", "clearMetrics"); fM != nil && clr != nil {
 		eng := c.newLockEngine()
 		c.checkReportBeforeClear("O9 flag-before-report", "O9 report-before-clear")
+		// a closed scope that is still registered is never handed out as live (re-opened in place): the pass
+		// that sampled it as closed still drops it, with everything counted on it afterwards (shared with C07 O6)
+		c.checkLiveHandout("O9 live-handout")
 		c.checkGapSafeDeletes("O9 lock-gap", fM, eng, clr)
 		c.checkPurgeOnlyFromClose("O9 purge-only-from-close")
 		c.checkDoubleChecked("O10 double-checked", eng)
